@@ -52,6 +52,8 @@ def run(ctx, ck) -> None:
             ck.ok('J1', c.node, f'{c.name} is abstract (unimplemented abstract methods): no instance exists to be flattened', instance=f'{c.name} registered', nontrivial=False)
             continue
         ck.expect('J1', c in registered, c.node, 'registered as a pytree node class', f'{c.name} is a landscape subclass without @register_pytree_node_class: flattening it yields the instance itself as a leaf', instance=f'{c.name} registered', nontrivial=False)
+    round_trip_decided = _round_trip(ctx, ck, world, table, registered)
+    j1_start = len(ck.obs)
     for c in registered:
         tf = table.resolve(c, 'tree_flatten')
         tu = table.resolve(c, 'tree_unflatten')
@@ -112,6 +114,18 @@ def run(ctx, ck) -> None:
                        'an array is neither (treedef comparison is ambiguous / jit with such a landscape as static or cached argument fails)', instance=f'{c.name} static aux {k} is an array')
         # every attribute assigned by the constructor chain that the class reads back is reproduced: attrs set in __init__ chain
         ck.ok('J1', where, f'{c.name}: writer/reader agreement over keys {sorted(keys)}', instance=f'{c.name} summary', nontrivial=False)
+
+
+    if round_trip_decided:
+        # the writer/reader table clauses describe the cls(**aux_data) protocol; where the protocol is written another way
+        # they cannot follow it, and the evaluation of the round trip (J7) stands
+        kept = []
+        for i, o in enumerate(ck.obs):
+            if i >= j1_start and o.rule.endswith('J1') and o.status == 'incomplete' and any(w in o.construct for w in (' reader', ' writer')):
+                ck.note(f'{o.rule} [{o.construct}] not decided structurally ({o.how[:100]}); superseded by J7')
+                continue
+            kept.append(o)
+        ck.obs[:] = kept
 
     # ------------------------------------------------------------------ J2
     flow = InitFlow(world, table)
@@ -204,6 +218,66 @@ def run(ctx, ck) -> None:
 
     # ------------------------------------------------------------------ J6 the factor of a scalar multiple is stored as an array
     _scalar_leaf(ctx, ck, world, table)
+
+
+def _round_trip(ctx, ck, world, table, registered) -> bool:
+    """J7: flattening a hand-registered pytree object and unflattening what it yields gives back an object with the same
+    attributes - decided by evaluating constructor, tree_flatten and tree_unflatten of every registered class on symbolic /
+    representative arguments (sa/axinterp.py), whatever the protocol is written with (cls(**aux), a table of field names and
+    setattr ...).  An attribute set by a constructor and missing after the round trip is reported.  Returns True if decided."""
+    from ..axinterp import AxArr, ClassRef, Env, Func, Interp, Obj, Opaque, Raised, Ref, Undecided, UNK
+
+    decided = True
+    for c in registered:
+        it = Interp(world, table, budget=100_000)
+        it.constructible = {k.qual for k in registered} | {k.qual for k in c.mro}
+        init = table.resolve(c, '__init__')
+        if init is None or not isinstance(init.node, ast.FunctionDef):
+            continue
+        # representative arguments by parameter name
+        reps = {'shape': (4, 6), 'pixel_shape': None, 'nside': 2, 'stokes': 'IQU', 'dtype': Ref('numpy.float32'), 'frequencies': AxArr(((frozenset({'f'}), 3),), 'float64')}
+        params = [a.arg for a in init.node.args.args[1:]] + [a.arg for a in init.node.args.kwonlyargs]
+        kwargs = {}
+        ok_args = True
+        defaults = dict(zip([a.arg for a in init.node.args.args][len(init.node.args.args) - len(init.node.args.defaults):], init.node.args.defaults))
+        for p_ in params:
+            if p_ in reps:
+                if reps[p_] is not None:
+                    kwargs[p_] = reps[p_]
+            elif p_ not in defaults:
+                ok_args = False
+        if not ok_args:
+            ck.incomplete('J7', init.node, f'{c.name}: no representative value for a constructor parameter among {params}', instance=f'{c.name} round trip')
+            decided = False
+            continue
+        try:
+            obj = it.construct(c, **kwargs)
+            before = dict(obj.attrs)
+            flat = it.call_method(obj, 'tree_flatten')
+            if not (isinstance(flat, tuple) and len(flat) == 2):
+                raise Undecided('tree_flatten does not return (children, aux_data)')
+            children, aux = flat
+            tu = table.resolve(c, 'tree_unflatten')
+            if tu is None or not isinstance(tu.node, ast.FunctionDef):
+                raise Undecided('tree_unflatten does not resolve')
+            rebuilt = it.call(it.get_attr(ClassRef(c), 'tree_unflatten', None), [aux, children], {}, None)
+        except Raised as exc:
+            ck.bad('J7', c.node, f'{c.name}: the flatten / unflatten round trip raises {exc.name}', instance=f'{c.name} round trip')
+            continue
+        except Undecided as exc:
+            ck.incomplete('J7', c.node, f'{c.name}: the flatten / unflatten round trip could not be followed: {exc}', instance=f'{c.name} round trip')
+            decided = False
+            continue
+        if not isinstance(rebuilt, Obj) or it.degraded:
+            ck.incomplete('J7', c.node, f'{c.name}: the object rebuilt by tree_unflatten could not be followed ({it.degraded[:1]})', instance=f'{c.name} round trip')
+            decided = False
+            continue
+        lost = sorted(k for k in before if k not in rebuilt.attrs)
+        changed = sorted(k for k in before if k in rebuilt.attrs and rebuilt.attrs[k] != before[k] and rebuilt.attrs[k] is not before[k])
+        ck.expect('J7', not lost and not changed and rebuilt.cls is c, c.node, f'{c.name}: after flatten / unflatten every attribute set by the constructors ({sorted(before)}) is restored',
+                  f'{c.name}: after a flatten / unflatten round trip ' + (f'the attributes {lost} are missing' if lost else f'the attributes {changed} differ' if changed else f'the object is a {rebuilt.cls.name}')
+                  + ': methods reading them fail (or answer differently) on any landscape that went through jit, tree.map or a pytree copy', instance=f'{c.name} round trip')
+    return decided
 
 
 def _scalar_leaf(ctx, ck, world, table) -> None:
